@@ -72,6 +72,10 @@ pub fn contexts() -> Vec<Ctx> {
         Ctx { label: "Negate", hole: Kind::Num, yields: Kind::Num, wrap: |h| tirb::builtin(BuiltInOp::Negate(h)) },
         Ctx { label: "Property(hole,c)", hole: Kind::Any, yields: Kind::Any, wrap: |h| tirb::builtin(BuiltInOp::Property(Expression::List(vec![h, n(4)]), n(0))) },
         Ctx { label: "Property(c,hole)", hole: Kind::Num, yields: Kind::Num, wrap: |h| tirb::builtin(BuiltInOp::Property(Expression::List(vec![n(7), n(8), n(9), n(10), n(11), n(12)]), h)) },
+        Ctx { label: "PropertyStruct(c,hole)", hole: Kind::Num, yields: Kind::Num, wrap: |h| tirb::builtin(BuiltInOp::Property(Expression::Struct(StructExpr { constructor: 0, fields: vec![n(7), n(8)] }), h)) },
+        Ctx { label: "PropertyTuple(c,hole)", hole: Kind::Num, yields: Kind::Num, wrap: |h| tirb::builtin(BuiltInOp::Property(Expression::Tuple(Box::new((n(7), n(8)))), h)) },
+        Ctx { label: "PropertyMap(c,hole)", hole: Kind::Num, yields: Kind::Any, wrap: |h| tirb::builtin(BuiltInOp::Property(Expression::Map(vec![(n(0), n(7)), (n(5), n(8))]), h)) },
+        Ctx { label: "PropertyUtxoDatum(c,hole)", hole: Kind::Num, yields: Kind::Any, wrap: |h| tirb::builtin(BuiltInOp::Property(tirb::coerce(Coerce::IntoDatum(Expression::UtxoSet([crate::props::c06::sample_utxo(0x2a)].into_iter().collect()))), h)) },
         Ctx { label: "BuildScriptAddress", hole: Kind::Bytes, yields: Kind::Address, wrap: |h| tirb::compiler_op(CompilerOp::BuildScriptAddress(h)) },
         Ctx { label: "ComputeMinUtxo", hole: Kind::Num, yields: Kind::Assets, wrap: |h| tirb::compiler_op(CompilerOp::ComputeMinUtxo(h)) },
         Ctx { label: "SlotToTime", hole: Kind::Num, yields: Kind::Num, wrap: |h| tirb::compiler_op(CompilerOp::ComputeSlotToTime(h)) },
